@@ -25,6 +25,14 @@ FAMS = [
                   {"exec": "asyncio", "cancels": True,
                    "cancel_kinds": ["scope", "deadline"], **OPTS},
                   [oracles.WaiterObserver], [_posts]),
+    # graceful HTTP/2 shutdowns (GOAWAY) while responses are held open at a small stream
+    # limit: later requests must go to another connection, not park on the old one
+    PoolMixFamily("C07", "progress-async-goaway", 1200, 25000,
+                  {"exec": "asyncio", "protos": ["h2"], "proxies": ["none"] * 4 + ["http", "socks"],
+                   "p_h2_events": 1.0, "h2_mcs": [1, 1, 1, 2], "max_connections": [2, 2, 3, 4],
+                   "p_pool_timeout": 0.1, "max_callers": 5,
+                   "consume_opts": {"p_all": 0.5, "p_hold": 0.5}},
+                  [oracles.WaiterObserver, oracles.TerminatedAssignObserver], [_posts]),
     PoolMixFamily("C07", "progress-trio", 1200, 20000,
                   {"exec": "trio", "cancels": True, **OPTS}, [], [_posts]),
     PoolMixFamily("C07", "progress-threads", 600, 15000,
